@@ -384,15 +384,27 @@ def gen_imports_tree(rng: random.Random) -> Dict[str, Any]:
     # star re-export
     files[f"{base}_starhub.py"] = f"from {base}_plain import *\nfrom {base}_all import *\n"
     objs += [(f"{base}_starhub", "plain_func"), (f"{base}_starhub", "shown_func")]
+    # three star imports in a row in front of the defining module
+    files[f"{base}_star3.py"] = "def far_func():\n    return 'far'\n\n\nFAR_CONST = object()\n"
+    files[f"{base}_star2.py"] = f"from {base}_star3 import *\n"
+    files[f"{base}_star1.py"] = f"from {base}_star2 import *\n"
+    objs += [(f"{base}_star1", "far_func"), (f"{base}_star1", "FAR_CONST"), (f"{base}_star2", "far_func")]
+    stdlib_nested = [("importlib.util", "find_spec"), ("email.utils", "parseaddr"), ("json.decoder", "JSONDecoder"),
+                     ("os.path", "join"), ("xml.dom.minidom", "parseString"), ("collections.abc", "Mapping"), ("urllib.parse", "urlparse")]
     clients: List[str] = []
     for c in range(rng.randint(1, 4)):
         lines: List[str] = []
         refs: List[str] = []
         late: List[str] = []
+        if rng.random() < 0.4:
+            mod, name = rng.choice(stdlib_nested)
+            late.append(f"def late_{c}_{len(late)}():\n    from {mod} import {name}\n    return {name}\n")
         n_imp = rng.randint(1, 5)
         star_used = False
         for mod, name in rng.sample(objs, min(n_imp, len(objs))):
             form = rng.choice(["from", "from", "from_as", "import", "import_as", "star", "dup", "in_func", "stacked"])
+            if mod.endswith(("_star1", "_star2")) and not star_used and rng.random() < 0.6:
+                form = "star"
             if form == "star" and (star_used or name.startswith("_") or (mod.endswith("_all") and name == "hidden_func")):
                 form = "from"
             if form == "from":
@@ -613,3 +625,17 @@ def _known_import_pattern(before: str, after: str, problem: str) -> Optional[str
     if star_before - star_after and local_import and name not in toplevel_bound_after:
         return "e3:imports:star-import-dropped-while-name-also-imported-inside-a-function"
     return None
+
+
+def rewired_tree(files: Dict[str, str], base: str) -> Dict[str, str]:
+    """The same module names, another layout: who defines and who re-exports is
+    swapped (used for an earlier run over *another* project tree in the same
+    process - nothing of it may leak into the run that is judged)."""
+    out = dict(files)
+    out[f"{base}_chain3.py"] = "def deep_func():\n    return 'other tree'\n\n\nMID_CONST = object()\nDEEP_CONST = object()\n"
+    out[f"{base}_chain2.py"] = f"from {base}_chain3 import deep_func, MID_CONST\n"
+    out[f"{base}_chain1.py"] = f"from {base}_chain2 import deep_func\nfrom {base}_chain3 import DEEP_CONST\n"
+    out[f"{base}_plain.py"] = f"from {base}_all import shown_func as plain_func\nfrom {base}_all import SHOWN_CONST as PLAIN_CONST\n\n\nclass PlainClass:\n    pass\n"
+    out[f"{base}_starhub.py"] = "def plain_func(x):\n    return x\n\n\ndef shown_func():\n    return 0\n\n\nclass PlainClass:\n    pass\n\n\nPLAIN_CONST = object()\nSHOWN_CONST = object()\n"
+    out[f"{base}_star1.py"] = "def far_func():\n    return 'near'\n\n\nFAR_CONST = object()\n"
+    return out
